@@ -2,6 +2,8 @@ package main
 
 import (
 	"fmt"
+	"go/constant"
+	"os"
 	"go/token"
 	"go/types"
 	"sort"
@@ -209,7 +211,15 @@ func (fa *FnAnalysis) term(st *State, v ssa.Value) *Term {
 	case *ssa.FieldAddr:
 		return e.tt.mk(Term{K: "FA", A: fa.term(st, x.X), N: x.Field})
 	case *ssa.Field:
-		return e.tt.mk(Term{K: "F", A: fa.term(st, x.X), N: x.Field})
+		t := e.tt.mk(Term{K: "F", A: fa.term(st, x.X), N: x.Field})
+		if t.K == "L" && st != nil {
+			// field of a struct loaded as a whole: forward from a store to that field
+			// made in the same memory epoch as the load
+			if cell, ok := st.heap[t.A.key]; ok && cell.ep == t.N {
+				return fa.term(st, cell.val)
+			}
+		}
+		return t
 	case *ssa.UnOp:
 		switch x.Op {
 		case token.NOT:
@@ -484,7 +494,7 @@ func (fa *FnAnalysis) run() {
 					}
 				}
 				ins = dedupe(ins)
-				if len(ins) > dnfCap {
+				if len(ins) > dnfCap || (fa.collapsed[b] && len(ins) > 1) {
 					m := ins[0]
 					for _, s := range ins[1:] {
 						m = meetStates(m, s)
@@ -510,6 +520,11 @@ func (fa *FnAnalysis) run() {
 		}
 		if pass == 39 {
 			fa.unstable = true
+		}
+		if pass >= 37 && os.Getenv("STACKCHECK_DEBUG") != "" {
+			for _, b := range order {
+				fmt.Fprintf(os.Stderr, "pass %d %s block %d: %s\n", pass, relName(fn), b.Index, inKey[b])
+			}
 		}
 	}
 	// final replay recording per-instruction states and returns
@@ -708,12 +723,17 @@ func (fa *FnAnalysis) transfer(st *State, in ssa.Instruction) {
 			}
 		}
 		fa.bump(st, in)
+		loc := e.eff.classifyAddr(x.Addr)
+		fa.killHeap(st, []string{loc})
+		at := fa.term(st, x.Addr)
+		st.heap[at.key] = heapCell{addr: at, val: x.Val, loc: loc, ep: st.epoch}
 	case *ssa.MapUpdate:
 		fa.bump(st, in)
 	case *ssa.Send:
 		fa.bump(st, in)
 	case *ssa.RunDefers:
 		fa.bump(st, in)
+		st.heap = map[string]heapCell{}
 	case *ssa.UnOp:
 		if x.Op == token.MUL {
 			if a, path := allocCell(x.X); a != nil {
@@ -731,11 +751,17 @@ func (fa *FnAnalysis) transfer(st *State, in ssa.Instruction) {
 					}
 					return
 				}
-				delete(st.terms, x)
+				// opaque local object: treat like a heap cell
+			}
+			// heap load: forwarded from the last store to the same cell, else
+			// CSE within the same memory epoch
+			at := fa.term(st, x.X)
+			if cell, ok := st.heap[at.key]; ok {
+				st.terms[x] = fa.term(st, cell.val)
+				st.bind[x] = cell.val
 				return
 			}
-			// heap load: CSE within the same memory epoch
-			at := fa.term(st, x.X)
+			delete(st.bind, x)
 			st.terms[x] = e.tt.mk(Term{K: "L", A: at, N: st.epoch})
 		}
 	case *ssa.Call:
@@ -754,17 +780,38 @@ func (fa *FnAnalysis) transferCall(st *State, in ssa.Instruction, c *ssa.CallCom
 		case "len", "cap", "min", "max", "real", "imag", "complex":
 		default:
 			fa.bump(st, in)
+			fa.killHeap(st, []string{"SLOT", "HDR"})
+			for k, c := range st.heap {
+				if strings.HasPrefix(c.loc, "ELEM:") || strings.HasPrefix(c.loc, "MAP:") {
+					delete(st.heap, k)
+				}
+			}
 		}
+		return
+	}
+	if c.IsInvoke() {
+		name := c.Method.FullName()
+		if !(isPureExternal(name) || aliasExternal[name]) {
+			fa.bump(st, in)
+			st.heap = map[string]heapCell{}
+		}
+		fa.externalPost(st, v, name)
 		return
 	}
 	callee := e.p.callee(c)
 	if callee == nil {
 		fa.bump(st, in)
+		st.heap = map[string]heapCell{}
 		return
 	}
 	if e.p.inPkg(callee) {
 		if !e.eff.pure(callee) {
 			fa.bump(st, in)
+			var locs []string
+			for _, w := range e.eff.writesOf(callee) {
+				locs = append(locs, w.Loc)
+			}
+			fa.killHeap(st, locs)
 		}
 		fa.refineCall(st, v)
 		return
@@ -772,8 +819,30 @@ func (fa *FnAnalysis) transferCall(st *State, in ssa.Instruction, c *ssa.CallCom
 	name := callee.String()
 	if !(isPureExternal(name) || aliasExternal[name]) {
 		fa.bump(st, in)
+		st.heap = map[string]heapCell{}
 	}
 	fa.externalPost(st, v, name)
+}
+
+// killHeap drops forwarded cells that a write to one of the given abstract
+// locations may alias.
+func (fa *FnAnalysis) killHeap(st *State, locs []string) {
+	if len(st.heap) == 0 {
+		return
+	}
+	all := false
+	set := map[string]bool{}
+	for _, l := range locs {
+		if strings.HasPrefix(l, "DEREF:") || strings.HasPrefix(l, "EXT") || l == "HANDLE" {
+			all = true
+		}
+		set[l] = true
+	}
+	for k, c := range st.heap {
+		if all || set[c.loc] || strings.HasPrefix(c.loc, "DEREF:") {
+			delete(st.heap, k)
+		}
+	}
 }
 
 // callResultTerm is the term of result k of a call.
@@ -801,6 +870,11 @@ func (fa *FnAnalysis) knownTerm(st *State, kind string, t *Term) (bool, bool) {
 			return true, true
 		case "C":
 			return t.S != "nil", true
+		case "V":
+			switch t.V.(type) {
+			case *ssa.Alloc, *ssa.MakeInterface, *ssa.MakeMap, *ssa.MakeSlice, *ssa.MakeChan, *ssa.MakeClosure, *ssa.FieldAddr, *ssa.IndexAddr:
+				return true, true
+			}
 		}
 	}
 	if kind == aTR && t.K == "C" {
@@ -930,6 +1004,24 @@ func (fa *FnAnalysis) buildSummary() *Summary {
 				t := fa.term(s, rv)
 				if t.paramRooted() {
 					d.T = t
+				} else {
+					// a loop-header phi still bound to its entry value
+					w := rv
+					for i := 0; i < 4; i++ {
+						if nx, ok := s.bind[w]; ok && nx != nil {
+							w = nx
+						} else {
+							break
+						}
+					}
+					if w != rv {
+						if wt := fa.term(s, w); wt.paramRooted() {
+							d.T = wt
+						}
+					}
+				}
+				if d.T != nil && d.T.K == "C" && d.T.Const != nil && d.T.Const.Kind() == constant.Int {
+					d.Kind = 'k'
 				}
 				if b, ok := rv.Type().Underlying().(*types.Basic); ok && b.Kind() == types.Bool {
 					if v, ok := fa.knownTerm(s, aTR, t); ok {
@@ -1026,6 +1118,27 @@ func (fa *FnAnalysis) refineCall(st *State, c *ssa.Call) {
 			case 'N':
 				if v, known := st.get(aNN, rt); known && !v {
 					ok = false
+				}
+			case 'k':
+				// an integer constant result: every stored comparison on the result must agree
+				for _, f := range st.facts {
+					if f.Kind != aTR || f.T.K != "B" {
+						continue
+					}
+					if f.T.A != rt && f.T.B != rt {
+						continue
+					}
+					a, b := f.T.A, f.T.B
+					if a == rt {
+						a = d.T
+					}
+					if b == rt {
+						b = d.T
+					}
+					r := e.tt.mk(Term{K: "B", S: f.T.S, A: a, B: b})
+					if r.K == "C" && r.Const != nil && r.Const.Kind() == constant.Bool && constant.BoolVal(r.Const) != f.Val {
+						ok = false
+					}
 				}
 			case '?':
 				// a result equal to a param-rooted term inherits its nil-ness
@@ -1131,7 +1244,7 @@ func (fa *FnAnalysis) externalPost(st *State, c *ssa.Call, name string) {
 				st.add(aVALID, rt, v)
 			}
 		}
-	case "errors.New", "log.New":
+	case "errors.New", "log.New", "(reflect.Type).Elem", "(reflect.Value).Type", "(reflect.Type).Key":
 		st.add(aNN, rt, true)
 	}
 }
@@ -1192,6 +1305,16 @@ func (fa *FnAnalysis) assumeVal(st *State, v ssa.Value, pol bool) {
 			}
 		}
 		fa.addTermFact(st, aTR, fa.term(st, v), pol)
+		for _, op := range []ssa.Value{x.X, x.Y} {
+			switch cv := op.(type) {
+			case *ssa.Call:
+				fa.refineCall(st, cv)
+			case *ssa.Extract:
+				if c2, ok := cv.Tuple.(*ssa.Call); ok {
+					fa.refineCall(st, c2)
+				}
+			}
+		}
 		return
 	case *ssa.Call:
 		fa.addTermFact(st, aTR, fa.term(st, v), pol)
